@@ -1101,8 +1101,15 @@ def check_division_sites(ctx, res, config="all"):
             if st in ("guarded", "const-nonzero"):
                 res.ok("R3b-divisor-nonzero", key, {"status": st, "by": det, "line": t["span"]["line"]})
             elif st == "precondition":
-                pre.append((b, det[0], key))
-                res.ok("R3b-divisor-nonzero", key, {"status": "precondition on callers", "param": det[0]}, nontrivial=False)
+                owner, pidx = b, det[0]
+                if isinstance(pidx, str) and pidx.startswith("captured from "):
+                    # the divisor is a variable captured by this closure from a private function's parameter
+                    owner, pidx = facts.body(pidx[len("captured from "):]), det[-1]
+                if owner is None or not isinstance(pidx, int):
+                    res.fail(Finding("R3b-unguarded-division", key, "division `%s` by a captured value whose origin cannot be resolved (%s)" % (callee(t), det), b, t["span"]["line"]))
+                    continue
+                pre.append((owner, pidx, key))
+                res.ok("R3b-divisor-nonzero", key, {"status": "precondition on callers", "param": pidx}, nontrivial=False)
             else:
                 reason = TRUSTED_DIVISORS.get((b.path, callee_name(t)))
                 if reason:
@@ -1596,3 +1603,67 @@ def check_operand_overflow(ctx, res, config="all"):
     if nb < 900:
         res.fail(Finding("R3-anchor-lost", "operand-overflow", "only %d exported bodies (floor 900)" % nb, file="src", line=0))
     res.clause("R3c: no exported function applies overflow-checked + - * to a by-value integer parameter that it never compares with anything (profile divergence for extreme values)")
+
+
+# ------------------------------------------------------------------------------------------
+# from_f64(..).unwrap() needs a finite argument
+
+
+def check_float_guess_guard(ctx, res, config="all"):
+    """`BigUint::from_f64(x).unwrap()` panics for a non-finite x, and `to_f64()` answers Some(INFINITY) for large values: every such
+    unwrap whose argument derives from `to_f64()` must be dominated by the true edge of `is_finite()` on that float (any other
+    dominating test of the float or of the bit length leaves the question open: note)"""
+    from . import tests as _t
+
+    facts = ctx.facts(config)
+    n = 0
+    for b in facts.bodies:
+        live = None
+        for i, t in b.calls():
+            if callee_name(t) != "from_f64" or "BigUint" not in (callee(t) or "") and "BigInt" not in (callee(t) or ""):
+                continue
+            if live is None:
+                live = b.live_blocks()
+            if i not in live:
+                continue
+            # result unwrapped?
+            d = t["dest"]["local"]
+            unwrapped = any(callee_name(tt) in ("unwrap", "expect") and tt["args"] and core.op_local(tt["args"][0]) == d for j, tt in b.calls())
+            if not unwrapped:
+                continue
+            at = _t.Atoms(b)
+            atoms = at.of_operand(t["args"][0])
+            if not any(a[0] == "call" and a[1] == "to_f64" for a in atoms):
+                continue
+            n += 1
+            src_bb = [j for j, tt in b.calls() if callee_name(tt) == "to_f64" and b.block_dominates(j, i)]
+            finite = other = False
+            for j, tt in b.terms("switch"):
+                if j not in live or not b.block_dominates(j, i):
+                    continue
+                if not any(b.block_dominates(sb, j) for sb in src_bb):
+                    continue
+                da = at.of_operand(tt["discr"])
+                if any(a[0] == "call" and a[1] == "is_finite" for a in da):
+                    # the true edge must be the one that reaches the call
+                    tgt_true = tt.get("otherwise")
+                    if tgt_true is not None and b.edge_dominates((j, tgt_true), i):
+                        finite = True
+                        continue
+                # the Option match on to_f64's own result does not bound the float
+                ds = b.defs().get(core.op_local(tt["discr"]), []) if core.op_local(tt["discr"]) is not None else []
+                if len(ds) == 1 and ds[0][0] == "assign" and ds[0][3]["rv"]["k"] == "discriminant":
+                    continue
+                other = True
+            key = "%s|from_f64#%d" % (b.path, sum(1 for j, tt in b.calls() if j < i and callee_name(tt) == "from_f64"))
+            if finite:
+                res.ok("R3-float-guess-finite", key, {"guard": "is_finite()"})
+            elif other:
+                res.note("R3-float-guess-finite: %s: the unwrapped from_f64 is guarded by a test other than is_finite() - not decided" % key)
+                res.ok("R3-float-guess-finite", key, {"guard": "other test (undecided)"}, nontrivial=False)
+            else:
+                res.fail(Finding("R3-float-guess-unguarded", key, "from_f64(..).unwrap() (line %s) on a float derived from to_f64() without an is_finite() guard: to_f64() returns Some(INFINITY) for large values, from_f64 then returns None and the unwrap panics" % t["span"]["line"], b, t["span"]["line"]))
+    res.count("from_f64(to_f64-derived).unwrap() sites", n)
+    if config in ("all", "default") and n < 3:
+        res.fail(Finding("R3-anchor-lost", "float-guess", "only %d float-guess sites found (floor 3)" % n, file="src/biguint.rs", line=0))
+    res.clause("R3: every from_f64(..).unwrap() on a float derived from to_f64() is dominated by is_finite() = true [config %s]" % config)
